@@ -23,6 +23,8 @@ func init() {
 			{ID: "C15.R3", Text: "open all or die: each spawned opener panics on error (or records it only under err≠nil); WaitGroup Add(len(vbIDs)) / Done after success / Wait before return", Run: c15r3},
 			{ID: "C15.R4", Text: "type switches are closed: no-match paths of the metadata, membership and leader-election selections panic", Run: c15r4},
 			{ID: "C15.R5", Text: "GetVBucketSeqNos: the callback's error reaches the function's error result (same rule as C20.R3 on that wrapper)", Run: c15r5},
+			{ID: "C15.R7", Text: "defaults never rewrite a configured (possibly invalid) type: every default store is guarded by the zero-test of its own field (same rule as C17.R1)", Run: c17r1},
+			{ID: "C15.R8", Text: "a vBucket without a position is an error: openStream returns a non-nil error on every path on which the position lookup fails", Run: c15r8},
 			{ID: "C15.R6", Text: "bounded reopen then fail-stop (same rule as C12.R3)", Run: c12r3},
 		},
 	})
@@ -466,4 +468,39 @@ func errGuardAnyNonNil(b *ssa.BasicBlock) bool {
 		}
 	}
 	return false
+}
+
+func c15r8(c *Ctx, id string) {
+	w := c.W
+	os := w.Method("stream", "stream", "openStream")
+	c.need(os != nil, id, "stream.openStream")
+	c.see(os)
+	n := 0
+	allInstrs(os, func(in ssa.Instruction) {
+		r, ok := in.(*ssa.Return)
+		if !ok || len(r.Results) != 1 {
+			return
+		}
+		missing := guardedBy(in.Block(), false, func(v ssa.Value) bool {
+			ex, isEx := v.(*ssa.Extract)
+			if !isEx || ex.Index != 1 {
+				return false
+			}
+			call, isCall := ex.Tuple.(*ssa.Call)
+			if !isCall {
+				return false
+			}
+			m, recv := csmapMethod(call.Common())
+			return m == "Load" && w.isOffsetMap(recv.Type())
+		})
+		if !missing {
+			return
+		}
+		n++
+		o := w.Origin(r.Results[0])
+		c.Check(o != "const(nil)" && !strings.HasPrefix(o, "φ"), id, "missing-position@"+fname(os), in.Pos(), "returns "+o, "openStream returns "+o+" when the vBucket has no position: the session would silently run without that vBucket")
+	})
+	if n == 0 {
+		c.Fail(id, "missing-position@"+fname(os), os.Pos(), "openStream has no failing return for a vBucket without a position")
+	}
 }
